@@ -22,6 +22,9 @@ func init() {
 	chk.RegisterWorker("c12exact", workC12Exact)
 }
 
+// c12BaseTokens: number of fine-grained tokens (the C01 byte-continuation family explores states over these only).
+var c12BaseTokens int
+
 var c12Tokens = func() []string {
 	t := []string{}
 	for _, k := range []string{"JSIGHT", "INFO", "Title", "Version", "Description", "SERVER", "BaseUrl", "URL", "GET", "POST", "PUT",
@@ -32,6 +35,11 @@ var c12Tokens = func() []string {
 	t = append(t, " x", " /p", " @A", " [@A]", " any", " empty", " regex", " jsight", ` "q"`, ` "a\"b"`, ` "`,
 		" ", "\t", "\n", "\r", "\r\n", " // a", " /* a */", " /*", "*/", " /", "# c", "### c ###", "###", "(", ")",
 		"{}", `{"a": 1}`, "[1]", "/re/", "@A", "text", "12", "{", "[")
+	c12BaseTokens = len(t)
+	t = append(t,
+		// whole-line tokens: multi-line shapes (a parenthesis after ')' or after a body, a 3-byte keyword line after free text,
+		// a glued keyword after an annotated line) are reached at a small depth
+		"GET /p\n", "URL /u\n", "GET /p // note\n", "Request\n", "200\n", "TYPE @A\n", "Description\n", "  some text\n", ")\n", "(\n", "{}\n", "200any", "GETx", "PUT\n", "404\n")
 	return t
 }()
 
